@@ -13,6 +13,8 @@ from . import spec as S
 
 
 class StmtMixin:
+    EXC_NAMES = {"Exception", "StopIteration", "ValueError", "TypeError", "KeyError", "IndexError", "RuntimeError", "NotImplementedError",
+                 "ZeroDivisionError", "AttributeError", "SystemExit", "ImportError", "ModuleNotFoundError"}
     # ------------------------------------------------------------------ blocks
     def block(self, stmts: List[ast.stmt], st: State, fr: Frame) -> List:
         live = [st]
@@ -59,6 +61,12 @@ class StmtMixin:
             if "$exc" in st.env:
                 return [("raise", st, st.env["$exc"])]
             raise OutOfSubset("bare raise outside handler")
+        # A-MSG: the *text* of exception messages is dropped; `raise Cls(f"...")` raises class Cls without evaluating the message
+        if isinstance(n.exc, ast.Call) and isinstance(n.exc.func, ast.Name) and n.exc.func.id not in st.env:
+            nm = n.exc.func.id
+            q = self.tree.resolve_name(fr.module, nm)
+            if (q in self.tree.classes and any(b in self.tree.classes[q].mro for b in ("Exception", "BaseException"))) or nm in self.EXC_NAMES:
+                return [("raise", st, exc_val(self.tree.classes[q].name if q in self.tree.classes else nm))]
         out = []
         for k, s, v in self.ev(n.exc, st, fr):
             if k == "raise":
@@ -251,7 +259,26 @@ class StmtMixin:
         raise OutOfSubset("del statement")
 
     # ------------------------------------------------------------------ if / merge
+    @staticmethod
+    def _effect_free_logging(body: List[ast.stmt]) -> bool:
+        return bool(body) and all(isinstance(b, ast.Expr) and isinstance(b.value, ast.Call) and isinstance(b.value.func, ast.Attribute)
+                                  and isinstance(b.value.func.value, ast.Name) and b.value.func.value.id == "LOGGER" for b in body)
+
     def s_If(self, n, st, fr):
+        if not n.orelse and self._effect_free_logging(n.body):
+            # `if cond: LOGGER.warning(...)`: no effect on verified state.  Test and arguments are executed on a scratch copy for
+            # run-time-error freedom (their VCs are emitted), exceptional outcomes are kept, the state itself continues unchanged.
+            out = [("normal", st, None)]
+            for k, st1, c in self.ev(n.test, st.copy(), fr):
+                if k == "raise":
+                    out.append((k, st1, c))
+                    continue
+                tc = self.truth(c, st1)
+                if self.feasible_with(st1, tc):
+                    s2 = st1.copy()
+                    s2.assume(tc)
+                    out.extend(r for r in self.block(n.body, s2, fr) if r[0] != "normal")
+            return out
         out = []
         for k, st1, c in self.ev(n.test, st, fr):
             if k == "raise":
